@@ -12,7 +12,9 @@
    Offsets in hint tables count as if the primary hint stream were absent (F.4.1): an offset at or
    beyond the hint stream's own offset stands for that offset plus the hint stream's length.
 
-   The result is a list of failed clauses (code, a, b); lin_ok = no failed clause. *)
+   The result is a list of failed clauses (code, a, b); lin_ok = no failed clause.
+   Codes 112 / 135 are clauses 12 / 35 where the offending object is an object stream (the needed
+   object is one of its members). *)
 From Coq Require Import String Ascii.
 From QV Require Import Base.Bytes File.StrictSyntax File.Inflate File.ReadStrict Lin.HintTypes.
 Local Open Scope N_scope.
@@ -398,7 +400,8 @@ Section HintClauses.
                    flat_map (fun c => if af_mem c range || af_mem c shared_all then [] else
                                       match af_find objs c with
                                       | Some o => match af_off o with
-                                                  | Some a => af_when (first_page_obj_off <=? a) (af_err 35 i c)
+                                                  | Some a => af_when (first_page_obj_off <=? a)
+                                                                (af_err (if af_has_type n_ObjStm (so_val o) then 135 else 35) i c)
                                                   | None => []
                                                   end
                                       | None => []
@@ -596,7 +599,7 @@ Definition lin_check (file : list N) : af_report :=
                                    end in
                       let e12 := flat_map (fun c => match af_find objs c with
                                                     | Some o => match af_off o with
-                                                                | Some a => af_when (E <=? a) (af_err 12 c a)
+                                                                | Some a => af_when (E <=? a) (af_err (if af_has_type n_ObjStm (so_val o) then 112 else 12) c a)
                                                                 | None => [] end
                                                     | None => [] end) (hd [] needs) in
                       (* hint tables *)
